@@ -279,8 +279,11 @@ pub fn c06(ctx: &Ctx, rep: &mut Report) {
     let mut tried = 0;
     while groups.len() < count && tried < count * 20 {
         tried += 1;
-        let class = *rng.pick(&["uniform", "euclid", "blobs", "sorted", "revsorted", "negmixed"]);
-        let n = gen::size(&mut rng, max_n).max(2);
+        let class = *rng.pick(&["uniform", "euclid", "blobs", "sorted", "revsorted", "negmixed", "shrinkline", "geomline"]);
+        let mut n = gen::size(&mut rng, max_n).max(2);
+        if class == "shrinkline" && rng.below(3) > 0 {
+            n = rng.range(18.min(max_n), max_n.min(90));
+        }
         let method = *rng.pick(&METHODS);
         let w32 = rng.below(2) == 0;
         let vals0 = gen::matrix(&mut rng, class, n);
@@ -779,8 +782,12 @@ pub fn c11(ctx: &Ctx, rep: &mut Report) {
     let mut tried = 0;
     while perms.len() < count && tried < count * 20 {
         tried += 1;
-        let class = *rng.pick(&["uniform", "euclid", "blobs", "sorted", "revsorted"]);
-        let n = gen::size(&mut rng, max_n).max(3);
+        let class = *rng.pick(&["uniform", "euclid", "blobs", "sorted", "revsorted", "shrinkline", "geomline"]);
+        let mut n = gen::size(&mut rng, max_n).max(3);
+        if class == "shrinkline" && rng.below(3) > 0 {
+            // deep nearest-neighbour chains need many observations
+            n = rng.range(18.min(max_n), max_n.min(90));
+        }
         let method = *rng.pick(&METHODS);
         let alg = *rng.pick(&ALGS);
         if !alg.accepts(method) || (alg == Alg::Primitive && n > 60) {
